@@ -340,6 +340,19 @@ def _run_check(prop, tier, spec, seed, t0, workdir):
             continue
         if tier == "thorough" and t.get("quick_only"):
             continue
+        if t.get("fuzz"):
+            tag = "t%d-fuzz" % ti
+            env, cwd = base_env(workdir, tag, tier, seed)
+            env.pop("VERIF_STATS", None)  # fuzz workers are processes of the same binary
+            ftime = t.get("fuzztime", {}).get(tier, "30s")
+            cmd = ["go", "test", "-tags", "verif", "-run", "^$", "-fuzz", "^%s$" % t["fuzz"], "-fuzztime", ftime, "."]
+            if os.environ.get("VERIF_REPO"):
+                modfile = os.path.join(workdir, "alt.mod")
+                cmd.insert(2, "-modfile=" + modfile)
+            timeout = t.get("timeout", {}).get(tier, 1800)
+            specs.append(dict(name=tag, test=t, cmd=cmd, env=env, cwd=HARNESS, log=os.path.join(workdir, tag + ".log"),
+                              timeout=timeout, stats=os.path.join(workdir, "none.json"), checks=None))
+            continue
         shards = t.get("shards", {}).get(tier, 1)
         checks = t.get("checks", {}).get(tier)
         for sh in range(shards):
@@ -358,6 +371,7 @@ def _run_check(prop, tier, spec, seed, t0, workdir):
                               timeout=timeout + 30, stats=env["VERIF_STATS"], checks=checks))
     results = run_procs(specs, int(os.environ.get("VERIF_PAR", "16")))
     short_runs = []
+    fuzz_execs = [0]
     for s, rc, timed_out in results:
         stats_files.append(s["stats"])
         out = tail(s["log"], 400)
@@ -369,6 +383,21 @@ def _run_check(prop, tier, spec, seed, t0, workdir):
             continue
         if timed_out or "panic: test timed out" in out:
             inconclusive.append("%s timed out\n%s" % (s["name"], tail(s["log"], 30)))
+            continue
+        if s["test"].get("fuzz"):
+            full = open(s["log"], errors="replace").read()
+            execs = [int(m.group(1)) for m in re.finditer(r"execs: (\d+)", full)]
+            fuzz_execs[0] += max(execs) if execs else 0
+            crash_dir = os.path.join(HARNESS, "testdata", "fuzz", s["test"]["fuzz"])
+            crashers = sorted(glob.glob(os.path.join(crash_dir, "*")), key=os.path.getmtime) if os.path.isdir(crash_dir) else []
+            if rc != 0 and crashers:
+                os.makedirs(REPLAYS, exist_ok=True)
+                dst = os.path.join(REPLAYS, "%s__%s__%s__%s.fuzz" % (prop, s["test"]["fuzz"], time.strftime("%Y%m%d-%H%M%S"), os.path.basename(crashers[-1])))
+                shutil.move(crashers[-1], dst)
+                shutil.rmtree(os.path.join(HARNESS, "testdata"), ignore_errors=True)
+                violations.append((dst, "\n".join(l for l in full.splitlines() if "violated" in l or "FAIL" in l)[:2000]))
+            elif rc != 0:
+                inconclusive.append("%s (native fuzz) exited with %s\n%s" % (s["name"], rc, tail(s["log"], 30)))
             continue
         if s["test"].get("race"):
             full = open(s["log"], errors="replace").read()
@@ -427,6 +456,9 @@ def _run_check(prop, tier, spec, seed, t0, workdir):
         if st["checked"] and st["failed"] and slug in listed:
             print("KNOWN-FINDING: property=%s key=%s %s [reproduction: %s]" % (prop, slug, st["what"], st["detail"][:300].replace("\n", " | ")))
     extra = {"processes": len(specs), "tests": [t["run"] for t in spec["tests"]]}
+    if fuzz_execs[0]:
+        extra["native_fuzz_execs"] = fuzz_execs[0]
+        extra["native_fuzz_note"] = "coverage-guided go test -fuzz campaign; not seedable, the saved crasher is the reproducible unit; its executions are not included in evaluations"
     if race_pairs:
         extra["race_reports"] = {"%s <-> %s" % k: v[0] for k, v in sorted(race_pairs.items())}
         extra["race_reports_by_known_finding"] = race_known
@@ -465,6 +497,23 @@ def run_replay(path):
             parts = base.split("__")
             prop, test = parts[0], parts[1]
             args = ["-test.run", "^%s$" % test, "-rapid.failfile=" + path]
+        elif path.endswith(".fuzz"):
+            parts = base.split("__")
+            prop, fname = parts[0], parts[1]
+            d = os.path.join(HARNESS, "testdata", "fuzz", fname)
+            os.makedirs(d, exist_ok=True)
+            shutil.copy(path, os.path.join(d, "replay"))
+            try:
+                p = subprocess.run(["go", "test", "-tags", "verif", "-count=1", "-run", "^%s$/replay" % fname, "."], cwd=HARNESS, env=go_env(),
+                                   stdout=subprocess.PIPE, stderr=subprocess.STDOUT, text=True)
+            finally:
+                shutil.rmtree(os.path.join(HARNESS, "testdata"), ignore_errors=True)
+            print(p.stdout[-4000:])
+            if p.returncode == 0:
+                print("REPLAY PASSES property=%s (the saved input no longer fails)" % prop)
+                return 0
+            print("VIOLATION property=%s replay=%s" % (prop, path))
+            return 1
         elif path.endswith(".json"):
             data = json.load(open(path))
             prop, test = data["property"], data["test"]
